@@ -15,6 +15,13 @@ leaves no log entry. Tokens (K = inbound call id, J = outbound call id):
   rdJ  reply handler of J passes reply.done   cl  Session.Close() is invoked (parks at close.cas)
   cc   closer passes its current gate         cut the connection is cut     pu  a whole Push
   pcl  Peer.Close() is invoked (no prefix)    DRAIN canonical release of everything (no prefix)
+
+The only choice the gates do not fix is the order in which `callCmdMap.Range` (a Go map iteration)
+yields the pending calls in the cancel loop of `readDisconnected`. The driver explores EVERY enabled
+reader step (`readerEvs` lists them; in the loop: one `rDPick j` per remaining entry) and carries all
+resulting simulations along; the output line lists the distinct observations separated by ` || `.
+When the loop is not blocked at a call whose mutex a parked caller holds, all orders end in the same
+state (`C08_cancel_order_invariant`) and there is one alternative.
 -/
 import Teleport.Drv.Util
 import Teleport.Model.Graceful
@@ -32,6 +39,7 @@ structure Sim where
   prs : List Nat := []        -- outbound ids whose remote handler has been released
   snap : Option St := none    -- the state at the moment Close() returned
   pushes : Nat := 0
+deriving BEq
 
 def Sim.init : Sim := { st := (step St.init .rTop).getD St.init }
 
@@ -41,51 +49,61 @@ def closerNext : XPc → Option Ev
   | .cas => some .xHubdel | .hubdel => some .xCtxWait | .ctxw => some .xCallWait
   | .callw => some .xStClosed | .stc => some .xSock | .sockc => some .xRet | _ => none
 
-def readerNext (s : St) : Option Ev :=
+/-- every reader step enabled in `s`. Inside `Range` any remaining entry may be yielded next. With
+    data still queued the reader reads it before it sees the end of the stream. -/
+def readerEvs (s : St) : List Ev :=
   match s.reader with
-  | .top => some .rTop
-  | .blocked => if !s.inq.isEmpty then some .rRead else if s.lost || s.sock then some .rReadErr else none
-  | .dload => some .rDLoad
-  | .dgo _ => some .rDGo
-  | .dwait _ => some .rDWait
-  | .dcancel _ =>
-    match s.cs.findIdx? (fun c => c.pc == .written) with
-    | some j => some (.rDCancel j)
-    | none => some .rDCancelEnd
-  | .dsock => some .rDSock
-  | _ => none
+  | .top => [.rTop]
+  | .blocked => if !s.inq.isEmpty then [.rRead] else if s.lost || s.sock then [.rReadErr] else []
+  | .dload => [.rDLoad]
+  | .dgo _ => [.rDGo]
+  | .dwait _ => [.rDWait]
+  | .dcancel _ => [.rDSnap]
+  | .dloop _ [] => [.rDCancelEnd]
+  | .dloop _ todo => todo.map .rDPick
+  | .dlock _ _ _ => [.rDVisit]
+  | .dsock => [.rDSock]
+  | _ => []
 
 def readerParked (r : RPc) : Bool :=
   match r with
   | .got _ | .add _ => true
   | _ => false
 
-/-- one step of a released goroutine, if any can move. -/
-def settle1 (m : Sim) : Option Sim :=
-  let rd : Option Sim :=
-    if m.rfree then
-      match readerNext m.st with
-      | some e =>
-        match step m.st e with
-        | some t => some { m with st := t, rfree := !readerParked t.reader }
-        | none => none
-      | none => none
-    else none
+/-- the successors of the reader (all enabled reader steps), if it is released. -/
+def readerSucc (m : Sim) : List Sim :=
+  if m.rfree then
+    (readerEvs m.st).filterMap fun e =>
+      (step m.st e).map fun t => { m with st := t, rfree := !readerParked t.reader }
+  else []
+
+/-- one step of a released goroutine: the closer if it can move, else every possible reader step;
+    `[]` = nothing can move. -/
+def settle1 (m : Sim) : List Sim :=
   if m.cfree then
     match closerNext m.st.closer with
     | some e =>
       match step m.st e with
-      | some t => some { m with st := t, cfree := false, snap := if t.closer = .ret then some t else m.snap }
-      | none => rd
-    | none => rd
-  else rd
+      | some t => [{ m with st := t, cfree := false, snap := if t.closer = .ret then some t else m.snap }]
+      | none => readerSucc m
+    | none => readerSucc m
+  else readerSucc m
 
-def settle : Nat → Sim → Sim
-  | 0, m => m
-  | n + 1, m =>
+/-- split a frontier into the simulations that are settled and the successors of the others. -/
+def settleLevel (fr : List Sim) : List Sim × List Sim :=
+  fr.foldl (fun (acc : List Sim × List Sim) m =>
     match settle1 m with
-    | some m' => settle n m'
-    | none => m
+    | [] => (acc.1 ++ [m], acc.2)
+    | l => (acc.1, acc.2 ++ l)) ([], [])
+
+/-- breadth-first over the released goroutines' steps until nothing moves; all outcomes. -/
+def settleAll : Nat → List Sim → List Sim → List Sim
+  | 0, fr, acc => (acc ++ fr).eraseDups
+  | n + 1, fr, acc =>
+    let (fin, nxt) := settleLevel fr
+    if nxt.isEmpty then (acc ++ fin).eraseDups else settleAll n nxt.eraseDups (acc ++ fin)
+
+def settle (m : Sim) : List Sim := settleAll 600 [m] []
 
 def closerChar (x : XPc) : String :=
   match x with
@@ -115,9 +133,10 @@ def pushStatus (h : H) : String :=
   | .ok => "OK"
   | _ => "ERR"
 
-/-- apply one session token; `none` = not applicable (no-op). The string is an optional suffix. -/
+/-- apply one session token, before settling; `none` = not applicable (no-op). The string is an
+    optional suffix. -/
 def tokS (m : Sim) (name : String) (arg : Nat) : Option (Sim × String) :=
-  let fin (m : Sim) : Option (Sim × String) := some (settle 256 m, "")
+  let fin (m : Sim) : Option (Sim × String) := some (m, "")
   match name with
   | "s" =>
     if m.ins.any (·.1 == arg) then none
@@ -193,7 +212,7 @@ def tokS (m : Sim) (name : String) (arg : Nat) : Option (Sim × String) :=
       | some h => pushStatus h
       | none => "?"
     let t := ap t (.hFin i)
-    some (settle 256 { m with st := t, pushes := m.pushes + 1 }, "=" ++ r)
+    some ({ m with st := t, pushes := m.pushes + 1 }, "=" ++ r)
   | _ => none
 
 /-- letters and trailing number of a token body. -/
@@ -208,6 +227,7 @@ structure PSim where
   pc : PPc := .idle
   spawned : List Nat := []
   log : List String := []
+deriving BEq
 
 def entry (i : Nat) (body : String) (m : Sim) (suffix : String) : String :=
   s!"{i + 1}.{body}/{closerChar m.st.closer}/{readerChar m.st.reader}{suffix}"
@@ -222,15 +242,18 @@ def tryJoin (p : PSim) : PSim :=
         | [] => ["+J"] }
   else p
 
-/-- apply session token `body` to session `i`; returns whether it was effective. -/
-def sessTok (p : PSim) (i : Nat) (body : String) : PSim × Bool :=
+/-- apply session token `body` to session `i` and settle: every outcome, and whether the token was
+    effective (the same for all outcomes). -/
+def sessTok (p : PSim) (i : Nat) (body : String) : List PSim × Bool :=
   match p.ss[i]? with
-  | none => (p, false)
+  | none => ([p], false)
   | some m =>
     let (name, arg) := splitTok body
     match tokS m name arg with
-    | none => (p, false)
-    | some (m', suf) => (tryJoin { p with ss := p.ss.set i m', log := entry i body m' suf :: p.log }, true)
+    | none => ([p], false)
+    | some (m', suf) =>
+      ((settle m').map fun m'' =>
+        tryJoin { p with ss := p.ss.set i m'', log := entry i body m'' suf :: p.log }, true)
 
 def inIds (m : Sim) : List Nat := m.ins.map (·.1)
 
@@ -241,40 +264,40 @@ def passToks (m : Sim) : List String :=
   ++ m.outs.flatMap (fun j => [s!"oa{j}", s!"ob{j}", s!"oc{j}", s!"pr{j}", s!"rd{j}"])
   ++ ["cc"]
 
-def drainPass (p : PSim) : PSim × Bool :=
-  (List.range p.ss.length).foldl (fun (acc : PSim × Bool) i =>
-    match acc.1.ss[i]? with
-    | none => acc
-    | some m =>
-      (passToks m).foldl (fun (a : PSim × Bool) body =>
-        let (p', eff) := sessTok a.1 i body
-        (p', a.2 || eff)) acc) (p, false)
+def passSess (i : Nat) (a : PSim × Bool) : List (PSim × Bool) :=
+  match a.1.ss[i]? with
+  | none => [a]
+  | some m =>
+    (passToks m).foldl (fun (as : List (PSim × Bool)) body =>
+      (as.flatMap fun a =>
+        let (ps, eff) := sessTok a.1 i body
+        ps.map fun p' => (p', a.2 || eff)).eraseDups) [a]
 
-def drain : Nat → PSim → PSim
-  | 0, p => p
-  | n + 1, p =>
-    let (p', eff) := drainPass p
-    if eff then drain n p' else p'
+def drainPass (p : PSim) : List (PSim × Bool) :=
+  (List.range p.ss.length).foldl (fun as i => (as.flatMap (passSess i)).eraseDups) [(p, false)]
 
-def peerClose (p : PSim) : PSim :=
-  if p.pc ≠ .idle then p else
+def drain : Nat → PSim → List PSim
+  | 0, p => [p]
+  | n + 1, p => (drainPass p).flatMap fun (p', eff) => if eff then drain n p' else [p']
+
+def peerClose (p : PSim) : List PSim :=
+  if p.pc ≠ .idle then [p] else
   let w := (List.range p.ss.length).filter fun i => match p.ss[i]? with
     | some m => m.st.closer == .idle
     | none => false
   let p := { p with pc := .spawned, spawned := w, log := "pcl" :: p.log }
-  let p := w.foldl (fun (q : PSim) i => (sessTok q i "cl").1) p
-  tryJoin p
+  (w.foldl (fun (qs : List PSim) i => (qs.flatMap fun q => (sessTok q i "cl").1).eraseDups) [p]).map tryJoin
 
-def topTok (p : PSim) (t : String) : PSim :=
-  if t == "DRAIN" then drain 400 p
+def topTok (p : PSim) (t : String) : List PSim :=
+  if t == "DRAIN" then (drain 400 p).eraseDups
   else if t == "pcl" then peerClose p
   else
     match t.splitOn "." with
     | [si, body] =>
       match si.toNat? with
       | some (i + 1) => (sessTok p i body).1
-      | _ => p
-    | _ => p
+      | _ => [p]
+    | _ => [p]
 
 def b01 (b : Bool) : String := if b then "1" else "0"
 
@@ -323,14 +346,17 @@ def showSess (m : Sim) : String :=
     | none => "-"
   s!"in={orDash (showIn m)} out={orDash (showOut m)} pend={pend} st={statusNum m.st.status} cl={closerChar m.st.closer}"
 
+def render (p : PSim) : String :=
+  let pcs := match p.pc with
+    | .idle => "idle" | .lclosed | .spawned => "closing" | .joined => "joined"
+  s!"tr={orDash (" ".intercalate p.log.reverse)} | " ++ " ; ".intercalate (p.ss.map showSess) ++ s!" | peer={pcs}"
+
 def c08 (f : Fields) : String :=
   match f.nat "n", f.get "sched" with
   | some n, some sched =>
     let p0 : PSim := { ss := List.replicate n Sim.init }
-    let p := (sched.splitOn ",").foldl topTok p0
-    let pcs := match p.pc with
-      | .idle => "idle" | .lclosed | .spawned => "closing" | .joined => "joined"
-    s!"tr={orDash (" ".intercalate p.log.reverse)} | " ++ " ; ".intercalate (p.ss.map showSess) ++ s!" | peer={pcs}"
+    let ps := (sched.splitOn ",").foldl (fun (ps : List PSim) t => (ps.flatMap (topTok · t)).eraseDups) [p0]
+    " || ".intercalate (ps.map render).eraseDups
   | _, _ => "bad-case"
 
 end D08
